@@ -342,6 +342,35 @@ def sample_check(rng, stats, nops=25, ndraws=40000):
     if tot <= 0 or len(m.bag) < 2:
         return None, ops, 0
     seed = rng.getrandbits(40)
+    # Cost guard, decided by counting draws (never by a clock, so that it replays): a history can leave
+    # the sampler with an acceptance probability of 1e-6 (a stale largest weight of 1000 over members
+    # of weight 0.001 is harmless for the law and is what the pinned code does); 40000 selections would
+    # then take hours.  A pilot of 300 selections under a counting stream of its own must stay below
+    # 100 uniforms per selection, otherwise the sample is skipped (the explorer's exact probes of the
+    # machine family still cover that history).
+    import EoN.simulation as _S
+
+    class _Budget(Exception):
+        pass
+
+    class _Counting(_r.Random):
+        calls = 0
+
+        def random(self):
+            self.calls += 1
+            if self.calls > 30000:
+                raise _Budget()
+            return super().random()
+    old_random = _S.random
+    _S.random = _Counting(seed + 1)
+    try:
+        for _ in range(300):
+            m.ld.choose_random()
+    except _Budget:
+        stats["sample_skipped_low_acceptance"] = stats.get("sample_skipped_low_acceptance", 0) + 1
+        return None, ops, -1
+    finally:
+        _S.random = old_random
     counts = {}
     with lawtest.fast_seeded(seed):
         for _ in range(ndraws):
